@@ -460,8 +460,10 @@ class LowerToIRVisitor(Visitor.DefaultVisitor):
 
                 assert isinstance(value, LinearIR.Value)
 
+                # The shuffle produces the updated parent vector, not a
+                # value of the (possibly scalar) type of the swizzle
                 si = LinearIR.ShuffleInstruction(
-                    ctx.AdaptType(expr.GetType()),
+                    value.Type,
                     value,
                     ctx.AssignmentValue,
                     indices,
